@@ -6,6 +6,7 @@ list=$(mktemp)
 for d in seeded/*/; do p="${d%/}"; id=$(basename "$p" | cut -d- -f1); [ -f "$p/patch.diff" ] && echo "$p/patch.diff $id" >> "$list"; done
 for f in mutants/*/*.patch; do id=$(basename "$(dirname "$f")"); echo "$f $id" >> "$list"; done
 mkdir -p out
+[ -n "$ONLY" ] && { grep -E " ($ONLY)\$" "$list" > "$list.f"; mv "$list.f" "$list"; }   # ONLY="C03|C07": just these properties
 cat "$list" | xargs -P ${CLAUSES_JOBS:-4} -L 1 sh -c 'o=$(./selftest "$0" "$1" quick 2>&1); rc=$(echo "$o" | sed -n "s/.*rc=\([0-9]\)$/\1/p" | tail -1); cl=$(echo "$o" | sed -n "s/.*clause=\([^ ]*\) .*/\1/p" | sort -u | tr "\n" ","); echo "$0 $1 $rc $cl"' > "${CLAUSES_OUT:-out/clauses.txt}"
 rm -f "$list"
 wc -l "${CLAUSES_OUT:-out/clauses.txt}"
